@@ -116,7 +116,16 @@ def cases(draw):
             # element-level API on one element: init_vars / step with the default or an explicit spy engine
             ops.append(["el", draw(st.sampled_from(["step", "step", "init", "init+step"])), draw(st.integers(0, 30)),
                         draw(st.one_of(st.none(), st.integers(0, 2)))])
-    return {"spec": sp, "spies": spies, "ops": ops, "falsy_spy": draw(st.one_of(st.none(), st.none(), st.integers(0, 2))), "opts": draw(st.lists(st.sampled_from(S.OPT_NAMES), unique=True, max_size=2).map(sorted))}
+    if draw(st.integers(0, 2)) == 0:
+        # directed tail: the variables of all elements are created by one engine, then an element is stepped on its
+        # own with another engine - the selected one (no engine passed) or an explicit one
+        a, b = draw(st.integers(0, 2)), draw(st.integers(0, 2))
+        k = draw(st.integers(0, 30))
+        if draw(st.booleans()):
+            ops += [["step", ["spy", a]], ["use_spy", b], ["el", "step", k, None]]
+        else:
+            ops += [["use_spy", a], ["step", None], ["el", "step", k, b]]
+    return {"spec": sp, "spies": spies, "ops": ops, "edit_menu": draw(st.integers(0, 3)) == 0, "falsy_spy": draw(st.one_of(st.none(), st.none(), st.integers(0, 2))), "opts": draw(st.lists(st.sampled_from(S.OPT_NAMES), unique=True, max_size=2).map(sorted))}
 
 
 def strategy(tier):
@@ -150,6 +159,19 @@ def check_types(ctx, els, kind, what):
                     ctx.fail(f"type:{grpname}:{kind}", f"{what}: {grpname}[{var}] of {i} has type {type(x).__name__}, not a {kind} quantity")
 
 
+def reference_primitives(sp, i, kind, opts, pars):
+    try:
+        net2, els2, _ = S.build(sp)
+        Y = Spy(kind)
+        net2.step(engine=Y, **opts, **pars)
+        els2[i].init_vars(engine=Y)
+        n0 = len(Y.log)
+        els2[i].step(net=net2, engine=Y, **opts, **pars)
+        return set(Y.log[n0:]) - {"var"}
+    except Exception:
+        return None
+
+
 def check_case(case, ctx):
     sp = case["spec"]
     feats = S.features(sp)
@@ -165,6 +187,15 @@ def check_case(case, ctx):
         ctx.label("falsy-engine")
     pars = S.pars_kwargs(sp)
     opts = S.opts_kwargs(case["opts"])
+    if case.get("edit_menu"):
+        # the caller edits the dictionary of available engines it was handed: unknown names stay unknown
+        menu = engines.get_available_engines()
+        if isinstance(menu, dict) and "numpy" in menu:
+            ctx.label("menu-edited")
+            for op in case["ops"]:
+                if op[0] == "use_name" and op[1] not in ("numpy", "casadi"):
+                    menu[op[1]] = dict(menu["numpy"]) if isinstance(menu["numpy"], dict) else menu["numpy"]
+    touched = {}  # element id -> ids of the engines that computed for it since its variables were created
     model = engines.get_current_engine()  # the model of the selection: the object expected to be current
     model_kind = "SX"
     state_kind = None  # kind of the quantities currently held by all elements (set by a full step)
@@ -254,6 +285,10 @@ def check_case(case, ctx):
                 if last_full_engine is not None and X is not last_full_engine and i in mains and op[3] is None and op[1] == "step":
                     ctx.label("el:main-origin-default-step-after-init-by-another-engine")
                 el = els[i]
+                first_use = isinstance(X, Spy) and op[1] == "step" and id(X) not in touched.get(i, {id(X)})
+                if "init" in op[1]:
+                    touched[i] = set()
+                touched.setdefault(i, set()).add(id(X))
                 ctx.label("el:" + op[1], "el:default" if op[3] is None else "el:explicit")
                 logs_before = [len(s.log) for s in spies]
                 kw = {} if op[3] is None else {"engine": X}
@@ -269,6 +304,18 @@ def check_case(case, ctx):
                     return
                 if X is not model:
                     ctx.nontrivial = True
+                if first_use:
+                    # X never computed anything for this element since its variables were created: every quantity of
+                    # the step must be computed by X now.  Which primitives a step of this element evaluates is taken
+                    # from the library itself, on a fresh twin (full step, element re-initialised, element step; one spy)
+                    expected = reference_primitives(sp, i, X.kind, opts, pars)
+                    if expected is not None:
+                        ctx.label("el:first-use-primitives-checked")
+                        got_names = set(X.log[logs_before[spies.index(X)]:]) if X in spies else set()
+                        missing = sorted(expected - got_names)
+                        if missing:
+                            ctx.fail(f"element:not-computed-by-engine:{missing[0]}", f"{what}: element-level step of {i} with the {'selected' if op[3] is None else 'explicit'} engine "
+                                     f"(which had not computed anything for it before) did not evaluate {missing} with that engine")
                 for j, s_ in enumerate(spies):
                     new = s_.log[logs_before[j]:]
                     if s_ is X:
@@ -286,6 +333,7 @@ def check_case(case, ctx):
                     check_types(ctx, els, model_kind, what + f" with {model_kind} selected")
                     state_kind = model_kind
                     last_full_engine = model
+                    touched = {i_: {id(model)} for i_ in els}
                     for j, s in enumerate(spies):
                         grew = len(s.log) > logs_before[j]
                         if s is model and not grew:
@@ -308,6 +356,7 @@ def check_case(case, ctx):
                     check_types(ctx, els, xk, what + f" with {model_kind} selected")
                     state_kind = xk
                     last_full_engine = X
+                    touched = {i_: {id(X)} for i_ in els}
                     for j, s in enumerate(spies):
                         new = s.log[logs_before[j]:]
                         if s is X:
